@@ -546,6 +546,41 @@ func FpBin(op string, a, b *Term) *Term {
 }
 
 func FpCmp(op string, a, b *Term) *Term {
+	// exact rewriting: an unsigned integer of <= 52 bits converts to float64 without rounding, so comparing it
+	// with a constant is an integer comparison.
+	if a.Op == "fp.from_ubv" && a.Args[0].S.W <= 52 && b.IsConst() && op != "fp.eq" {
+		h := a.Args[0]
+		w := h.S.W
+		c := b.FVal()
+		if c != c { // NaN
+			return tFalse
+		}
+		lim := float64(uint64(1) << uint(w))
+		fl := math.Floor(c)
+		switch op {
+		case "fp.leq": // h <= c  <=>  h <= floor(c)
+			if c < 0 {
+				return tFalse
+			}
+			if fl >= lim-1 {
+				return tTrue
+			}
+			return BvCmp("bvule", h, MkBV(w, uint64(fl)))
+		case "fp.lt": // h < c <=> h <= ceil(c)-1
+			if c <= 0 {
+				return tFalse
+			}
+			ce := math.Ceil(c)
+			if ce-1 >= lim-1 {
+				return tTrue
+			}
+			return BvCmp("bvule", h, MkBV(w, uint64(ce-1)))
+		case "fp.geq":
+			return Not(FpCmp("fp.lt", a, b))
+		case "fp.gt":
+			return Not(FpCmp("fp.leq", a, b))
+		}
+	}
 	if a.IsConst() && b.IsConst() {
 		x, y := a.FVal(), b.FVal()
 		switch op {
